@@ -570,8 +570,32 @@ func multiReplica(c *fw.Ctx, idx int) {
 			rp.close()
 		}
 	}()
+	// who trusts whom: everybody (the default), an explicit list naming every replica,
+	// or the usual layout of trusted_peers: the others, not oneself
+	trustMode := []string{"trust-all", "listed-with-self", "listed-others-only"}[idx%3]
+	ids := []peer.ID{}
 	for i := 0; i < n; i++ {
-		rp, err := newReplica(ctx, base+i, nil)
+		id, err := peer.IDFromPrivateKey(gen.Key(base + i))
+		if err != nil {
+			c.Inconclusive("key: " + err.Error())
+			return
+		}
+		ids = append(ids, id)
+	}
+	for i := 0; i < n; i++ {
+		i := i
+		rp, err := newReplica(ctx, base+i, func(cfg *crdt.Config) {
+			if trustMode == "trust-all" {
+				return
+			}
+			cfg.TrustAll = false
+			cfg.TrustedPeers = nil
+			for j, id := range ids {
+				if j != i || trustMode == "listed-with-self" {
+					cfg.TrustedPeers = append(cfg.TrustedPeers, id)
+				}
+			}
+		})
 		if err != nil {
 			c.Inconclusive("replica: " + err.Error())
 			return
@@ -579,10 +603,8 @@ func multiReplica(c *fw.Ctx, idx int) {
 		reps = append(reps, rp)
 	}
 	var hosts []host.Host
-	ids := []peer.ID{}
 	for _, rp := range reps {
 		hosts = append(hosts, rp.h)
-		ids = append(ids, rp.h.ID())
 	}
 	sim.ConnectAll(ctx, hosts)
 	var seq int64
@@ -645,8 +667,12 @@ func multiReplica(c *fw.Ctx, idx int) {
 	}
 	sim.ConnectAll(ctx, hosts)
 	script = append(script, "heal (final)")
+	headsAtHeal := make([]string, len(reps))
+	for i, rp := range reps {
+		headsAtHeal[i] = rp.heads()
+	}
 	// wait for equal, non-changing head sets
-	sameHeads := waitUntil(30*time.Second, func() bool {
+	converged := func() bool {
 		h0 := reps[0].heads()
 		for _, rp := range reps[1:] {
 			if rp.heads() != h0 {
@@ -660,7 +686,29 @@ func multiReplica(c *fw.Ctx, idx int) {
 			}
 		}
 		return true
-	})
+	}
+	sameHeads := waitUntil(30*time.Second, converged)
+	if !sameHeads && trustMode == "listed-others-only" {
+		// control by one variable: nothing at all moved for 30 s although everybody is
+		// connected; now every replica is told to trust itself too (which it does anyway)
+		moved := false
+		for i, rp := range reps {
+			if rp.heads() != headsAtHeal[i] {
+				moved = true
+			}
+		}
+		if !moved {
+			for _, rp := range reps {
+				rp.cons.Trust(ctx, rp.h.ID())
+			}
+			c.Eval("multi/control/self-trust")
+			if waitUntil(30*time.Second, converged) {
+				c.Violation("C02/replicas-that-trust-each-other-exchange-nothing/until-each-lists-itself",
+					"replicas that list each other (not themselves) as trusted exchanged no update for 30 s after the heal; they converged as soon as each was told to trust itself", script)
+				return
+			}
+		}
+	}
 	if !sameHeads {
 		c.Inconclusive("head sets did not become equal within 30 s after the heal")
 		return
@@ -674,7 +722,7 @@ func multiReplica(c *fw.Ctx, idx int) {
 		}
 		states = append(states, fmtState(st))
 	}
-	c.Eval(fmt.Sprintf("multi/n%d/steps%d", n, steps))
+	c.Eval(fmt.Sprintf("multi/n%d/steps%d/%s", n, steps, trustMode))
 	for i := 1; i < len(states); i++ {
 		if states[i] != states[0] {
 			// which CIDs differ, and what kind of history they had
